@@ -1602,7 +1602,7 @@ def run(ctx: vlib.Ctx):
     ]
     if not ctx.quick():
         # second opinion on the compiled proofs (independent checker)
-        rc, log, secs = vlib.run(["timeout", "900", "coqchk", "-silent", "-o", "-Q", "theories", "Verif", "-Q", "props", "VerifProps",
+        rc, log, secs = vlib.run(["timeout", "900", "coqchk", "-silent", "-o", "-Q", "theories", "Verif", "-Q", "gen", "VerifGen", "-Q", "props", "VerifProps",
                                   "VerifProps.C11_union"], cwd=vlib.COQ, timeout=930)
         ok = rc == 0 and "Axioms: <none>" in re.sub(r"\s+", " ", log)
         ctx.obligation("coqchk VerifProps.C11_union (no axioms)", ok, log[-600:])
